@@ -159,6 +159,12 @@ pub fn schema() -> (Schema, Fields) {
     let k = sb.add_text_field("k", STRING | FAST | STORED);
     let body = sb.add_text_field("body", TEXT | STORED);
     let sv = sb.add_i64_field("sv", INDEXED | FAST | STORED);
+    // the same sort value under every sortable type
+    sb.add_u64_field("su", FAST);
+    sb.add_f64_field("sf", FAST);
+    sb.add_date_field("sd", FAST);
+    sb.add_text_field("ss", STRING | FAST);
+    sb.add_bytes_field("sb", FAST);
     (sb.build(), Fields { id, k, body, sv })
 }
 
@@ -167,11 +173,32 @@ pub fn make_doc(f: &Fields, id: u64, key: &str) -> TantivyDocument {
     d.add_u64(f.id, id);
     d.add_text(f.k, key);
     d.add_text(f.body, format!("{key} doc{id} {key}"));
-    // sort value: a function of the id with duplicates and a missing value
-    if id % 5 != 0 {
-        d.add_i64(f.sv, ((id * 7) % 4) as i64 - 1);
+    // sort value: a function of the id with duplicates, mixed signs and a missing value
+    if let Some(base) = sort_base(id) {
+        d.add_i64(f.sv, base);
+        let field = |n: &str| tantivy::schema::Field::from_field_id(f.sv.field_id() + match n {
+            "su" => 1,
+            "sf" => 2,
+            "sd" => 3,
+            "ss" => 4,
+            _ => 5,
+        });
+        d.add_u64(field("su"), (base + 1) as u64);
+        d.add_f64(field("sf"), base as f64 * 0.5);
+        d.add_date(field("sd"), tantivy::DateTime::from_timestamp_secs(base * 86_400));
+        d.add_text(field("ss"), ["a", "b", "c", "d"][(base + 1) as usize]);
+        d.add_bytes(field("sb"), &[(base + 1) as u8][..]);
     }
     d
+}
+
+/// the sort value of document `id` (None = no value)
+pub fn sort_base(id: u64) -> Option<i64> {
+    if id % 5 == 0 {
+        None
+    } else {
+        Some(((id * 7) % 4) as i64 - 1)
+    }
 }
 
 pub struct Harness {
